@@ -204,6 +204,15 @@ pub fn gen_cfg(id: &str, tier: Tier, variant: u64) -> GenCfg {
             g.weights.consume = 2;
             g
         }
+        // memory accounting also when handles were given up without unadopt and
+        // allocations are given up through try_unwrap / make_mut
+        "C04" if variant % 4 == 2 => {
+            let mut g = GenCfg::new(Mode::Elide, ops);
+            g.weights.remove = 12;
+            g.weights.consume = 2;
+            g.weights.unique_root = 4;
+            g
+        }
         // ELIDE histories whose stale records have all been purged again are
         // exact: the orphan obligation is checked there too
         "C03" if variant % 4 == 2 => {
